@@ -271,7 +271,8 @@ AddRecursion(mi, form) ==
          [] form = "map" -> msgs' = PutField(mi, "message", msgs[mi].name, "map", "string", "none", "none")
          [] form = "repeated" -> msgs' = PutField(mi, "message", msgs[mi].name, "repeated", "string", "none", "none")
          [] form = "optional" -> msgs' = PutField(mi, "message", msgs[mi].name, "optional", "string", "none", "none")
-         [] form = "oneof" -> msgs' = PutField(mi, "message", msgs[mi].name, "single", "string", "choice", "expose")
+         [] form = "oneof" -> /\ OneofOpen(mi, "choice")
+                              /\ msgs' = PutField(mi, "message", msgs[mi].name, "single", "string", "choice", "expose")
          [] form = "flatchild" ->     \* the ordinary use of flatten: a child message folded into its parent
               /\ Len(msgs) < MaxMsgs
               /\ LET t == Len(msgs) + 1
